@@ -1,8 +1,13 @@
-// c08 places Session.Close() at every point of the request/handler/reply timeline of calls
-// in flight in both directions and observes each call's status and where Close() stands.
+// c08 places Session.Close() - one closer, two overlapping closers, Peer.Close() - at every
+// point of the request/handler/reply timeline of calls in flight in both directions, with the
+// peer replying, staying silent or the connection being cut, and with reply writes overlapping
+// on a connection that can stall a Write. It observes each call's and push's status and how
+// many Close() calls have returned. -mode window concentrates on calls and pushes issued while
+// Close() is waiting for a handler (used by the C07 check).
 package main
 
 import (
+	"flag"
 	"fmt"
 	"strings"
 	"sync"
@@ -14,7 +19,7 @@ import (
 	erpc "github.com/henrylee2cn/erpc/v6"
 )
 
-const settleTimeout = 8 * time.Second
+const eventWatchdog = 4 * time.Second
 
 type work struct {
 	mu      sync.Mutex
@@ -50,6 +55,25 @@ func (w *work) isStarted(k int) bool {
 	return w.started[k]
 }
 
+func (w *work) openAll() {
+	w.mu.Lock()
+	for _, c := range w.gate {
+		select {
+		case <-c:
+		default:
+			close(c)
+		}
+	}
+	for k := 0; k < 64; k++ {
+		if _, ok := w.gate[k]; !ok {
+			c := make(chan struct{})
+			close(c)
+			w.gate[k] = c
+		}
+	}
+	w.mu.Unlock()
+}
+
 var workOf = map[erpc.Peer]*work{}
 var workMu sync.Mutex
 
@@ -79,27 +103,36 @@ func classOf(st *erpc.Status) string {
 	return fmt.Sprintf("code%d", st.Code())
 }
 
-type inCall struct {
+type result struct {
 	done int32
 	cls  string
 }
 
+type outCall struct {
+	cmd atomic.Value // erpc.CallCmd once AsyncCall has returned
+}
+
 type world struct {
-	P, Q       erpc.Peer
-	ps, qs     erpc.Session
-	pw, qw     *work
-	g          *GateCtl
-	ins        []*inCall
-	outs       []erpc.CallCmd
-	closing    bool
-	closed     chan struct{}
-	released   map[int]bool // local handlers already released from the user handler
-	gotArmed   bool
-	handlerEnd int32 // order stamps: when local handlers finished their reply write
+	P, Q         erpc.Peer
+	ps, qs       erpc.Session
+	pconn, qconn *ScriptConn
+	pw, qw       *work
+	g            *GateCtl
+	ins          []*result
+	outs         []*outCall
+	pushes       []*result
+	closeCalls   int
+	closeRet     int32
+	sessCloseRet int32 // returned Session.Close() calls (Peer.Close skips a session that left the index)
+	pclosed      bool
+	closeBegan   bool
+	released     map[int]bool
+	stall        *Stall
+	stallRel     bool
 }
 
 func newWorld() *world {
-	w := &world{pw: newWork(), qw: newWork(), closed: make(chan struct{}), released: map[int]bool{}}
+	w := &world{pw: newWork(), qw: newWork(), released: map[int]bool{}}
 	w.P = erpc.NewPeer(erpc.PeerConfig{})
 	w.Q = erpc.NewPeer(erpc.PeerConfig{})
 	w.P.RouteCall(new(T))
@@ -108,8 +141,9 @@ func newWorld() *world {
 	workOf[w.P] = w.pw
 	workOf[w.Q] = w.qw
 	workMu.Unlock()
-	pr := ServePair(w.P, w.Q)
+	pr, qc, pc := ServeScriptPair(w.P, w.Q, "q:1", "p:1")
 	w.ps, w.qs = pr.SrvSess, pr.CliSess
+	w.pconn, w.qconn = pc, qc
 	w.g = NewGateCtl()
 	w.g.Arm("call.prereply", w.ps)
 	return w
@@ -117,53 +151,57 @@ func newWorld() *world {
 
 func (w *world) destroy() {
 	w.g.Uninstall()
-	for _, wk := range []*work{w.pw, w.qw} {
-		wk.mu.Lock()
-		for k, c := range wk.gate {
-			select {
-			case <-c:
-			default:
-				close(c)
-			}
-			_ = k
-		}
-		// handlers that start later must not block
-		for k := 0; k < 64; k++ {
-			if _, ok := wk.gate[k]; !ok {
-				c := make(chan struct{})
-				close(c)
-				wk.gate[k] = c
-			}
-		}
-		wk.mu.Unlock()
+	if w.stall != nil {
+		w.stall.Release()
 	}
-	w.ps.Close()
-	w.qs.Close()
+	w.pw.openAll()
+	w.qw.openAll()
+	w.qconn.Close()
+	w.pconn.Close()
+	// a Close() that hangs (that is a finding of the run, reported by the oracles) must not
+	// hang the harness: the teardown is bounded
+	fin := make(chan struct{})
+	go func() {
+		w.ps.Close()
+		w.qs.Close()
+		if !w.pclosed {
+			w.P.Close()
+		}
+		w.Q.Close()
+		close(fin)
+	}()
+	select {
+	case <-fin:
+	case <-time.After(2 * time.Second):
+	}
 	workMu.Lock()
 	delete(workOf, w.P)
 	delete(workOf, w.Q)
 	workMu.Unlock()
-	w.P.Close()
-	w.Q.Close()
 }
 
-func (w *world) closerClass(d []string) string {
-	if !w.closing {
-		return "idle"
+// busy reports whether some goroutine inside the library is running or ready to run: with an
+// in-memory connection every hand-over between goroutines goes through a Go synchronisation
+// primitive, so "nobody runnable" is quiescence, not a guess about timing.
+func busy(d []string) bool {
+	for _, g := range d {
+		if !strings.Contains(g, "henrylee2cn/erpc") || strings.Contains(g, "GoroutineDump") {
+			continue
+		}
+		nl := strings.IndexByte(g, '\n')
+		if nl < 0 {
+			continue
+		}
+		h := g[:nl]
+		if strings.Contains(h, "[running") || strings.Contains(h, "[runnable") || strings.Contains(h, "[sleep") {
+			return true
+		}
 	}
-	select {
-	case <-w.closed:
-		return "done"
-	default:
-	}
-	if CountIn(d, "closeLocked", "Group).Wait") > 0 {
-		return "blocked"
-	}
-	return "other"
+	return false
 }
 
-func (w *world) sample(d []string) string {
-	var in, out []string
+func (w *world) sample() string {
+	var in, out, pu []string
 	for _, c := range w.ins {
 		if atomic.LoadInt32(&c.done) == 1 {
 			in = append(in, VS(c.cls))
@@ -172,58 +210,72 @@ func (w *world) sample(d []string) string {
 		}
 	}
 	for _, c := range w.outs {
-		select {
-		case <-c.Done():
-			out = append(out, VS(classOf(c.Status())))
-		default:
-			out = append(out, VS("pending"))
+		cls := "pending"
+		if v := c.cmd.Load(); v != nil {
+			cmd := v.(erpc.CallCmd)
+			select {
+			case <-cmd.Done():
+				cls = classOf(cmd.Status())
+			default:
+			}
+		}
+		out = append(out, VS(cls))
+	}
+	for _, c := range w.pushes {
+		if atomic.LoadInt32(&c.done) == 1 {
+			pu = append(pu, VS(c.cls))
+		} else {
+			pu = append(pu, VS("pending"))
 		}
 	}
-	return VL(VS(w.closerClass(d)), VS(erpc.VerifStatusName(erpc.VerifSessionStatus(w.ps))),
-		VN(int64(atomic.LoadInt32(&w.pw.nstart))), VL(in...), VL(out...))
+	return VL(VL(VN(int64(w.closeCalls)), VN(int64(atomic.LoadInt32(&w.closeRet)))),
+		VS(erpc.VerifStatusName(erpc.VerifSessionStatus(w.ps))),
+		VN(int64(atomic.LoadInt32(&w.pw.nstart))), VL(in...), VL(out...), VL(pu...))
 }
 
-// settle waits until nothing moves any more: Close() returned or is blocked in a wait,
-// no local goroutine is between two parking places, the remote session has noticed a
-// closed connection, and two samples taken apart agree.
-func (w *world) settle(extra func() bool) (string, bool) {
+// settle: nobody inside the library is runnable, on three dumps in a row, and what can be
+// observed did not move in between; the watchdog is per event.
+func (w *world) settle() (string, bool) {
 	var s1 string
-	ok := WaitUntil(settleTimeout, func() bool {
-		d := GoroutineDump()
-		if w.closerClass(d) == "other" {
+	calm := 0
+	ok := WaitUntil(eventWatchdog, func() bool {
+		if busy(GoroutineDump()) {
+			calm = 0
 			return false
 		}
-		if extra != nil && !extra() {
+		s := w.sample()
+		if calm > 0 && s != s1 {
+			calm = 0
+		}
+		s1 = s
+		calm++
+		if calm < 3 {
+			time.Sleep(time.Millisecond)
 			return false
 		}
+		// both ends agree about a dead connection
 		st := erpc.VerifStatusName(erpc.VerifSessionStatus(w.ps))
-		if st == "passive-closing" || st == "preparing" {
-			return false
-		}
 		if (st == "active-closed" || st == "passive-closed") && w.qs.Health() {
+			calm = 0
 			return false
 		}
-		// local handlers: each is inside the user handler, parked before its reply, or gone
-		running := CountIn(d, "handlerCtx).handle")
-		inUser := CountIn(d, "main.(*work).enter")
-		// (remote handlers also run in this process: count only this session's by gate/park)
-		parked := w.g.Parked("call.prereply", w.ps)
-		_ = running
-		_ = inUser
-		_ = parked
-		s1 = w.sample(d)
-		time.Sleep(4 * time.Millisecond)
-		d2 := GoroutineDump()
-		if w.sample(d2) != s1 {
-			return false
-		}
-		time.Sleep(4 * time.Millisecond)
-		return w.sample(GoroutineDump()) == s1
+		return true
 	})
 	if !ok {
-		s1 = w.sample(GoroutineDump())
+		s1 = w.sample()
 	}
 	return s1, ok
+}
+
+func (w *world) closeLike(f func(), sess bool) {
+	w.closeCalls++
+	go func() {
+		f()
+		if sess {
+			atomic.AddInt32(&w.sessCloseRet, 1)
+		}
+		atomic.AddInt32(&w.closeRet, 1)
+	}()
 }
 
 func runCase(st *Stats, idx int, script []string) (string, string) {
@@ -231,18 +283,22 @@ func runCase(st *Stats, idx int, script []string) (string, string) {
 	defer w.destroy()
 	var ins, outs []string
 	human := strings.Join(script, " ")
-	closeReturnedAt := int32(0)
-	var stamp int32
-	enteredBefore := map[int]bool{} // incoming calls whose handler was entered before Close() was called
-	issuedBefore := map[int]bool{}  // outgoing calls issued (and written) before Close() was called
+	enteredBefore := map[int]bool{} // incoming calls whose handler was entered before the first Close()
+	issuedBefore := map[int]bool{}  // outgoing calls issued before the first Close()
+	lost := false
+	windowOps := map[*result]string{} // calls/pushes issued while Close() was under way, not yet returned
+	var lateCalls []int
 	for _, ev := range script {
 		f := strings.Split(ev, ":")
-		var extra func() bool
 		var in string
+		closing := func() bool {
+			stn := erpc.VerifStatusName(erpc.VerifSessionStatus(w.ps))
+			return stn != "ok"
+		}
 		switch f[0] {
 		case "in":
 			k := len(w.ins)
-			c := &inCall{}
+			c := &result{}
 			w.ins = append(w.ins, c)
 			go func() {
 				var res int
@@ -250,26 +306,32 @@ func runCase(st *Stats, idx int, script []string) (string, string) {
 				c.cls = classOf(cmd.Status())
 				atomic.StoreInt32(&c.done, 1)
 			}()
-			gotBefore := w.g.Parked("read.got", w.ps)
-			extra = func() bool {
-				return w.pw.isStarted(k) || atomic.LoadInt32(&c.done) == 1 || w.g.Parked("read.got", w.ps) > gotBefore ||
-					(w.gotArmed && w.g.Parked("read.got", w.ps) > 0)
-			}
 			in = VL(VS("in"))
 		case "out":
 			k := len(w.outs)
-			var res int
-			cmd := w.ps.AsyncCall("/t/work", k, &res, make(chan erpc.CallCmd, 4))
-			w.outs = append(w.outs, cmd)
-			extra = func() bool {
-				select {
-				case <-cmd.Done():
-					return true
-				default:
-				}
-				return w.qw.isStarted(k)
+			c := &outCall{}
+			w.outs = append(w.outs, c)
+			if closing() {
+				lateCalls = append(lateCalls, k)
 			}
+			go func() {
+				var res int
+				cmd := w.ps.AsyncCall("/t/work", k, &res, make(chan erpc.CallCmd, 4))
+				c.cmd.Store(cmd)
+			}()
 			in = VL(VS("out"))
+		case "push":
+			c := &result{}
+			w.pushes = append(w.pushes, c)
+			if closing() {
+				windowOps[c] = "push"
+			}
+			go func() {
+				s := w.ps.Push("/t/nopush", "x")
+				c.cls = classOf(s)
+				atomic.StoreInt32(&c.done, 1)
+			}()
+			in = VL(VS("push"))
 		case "qrep":
 			var k int
 			fmt.Sscanf(f[1], "%d", &k)
@@ -279,24 +341,10 @@ func runCase(st *Stats, idx int, script []string) (string, string) {
 			default:
 				close(c)
 			}
-			cmd := w.outs[k]
-			started := w.qw.isStarted(k)
-			extra = func() bool {
-				if !started {
-					return true
-				}
-				select {
-				case <-cmd.Done():
-					return true
-				default:
-				}
-				// the reply cannot be taken in: reader parked before counting a frame, or gone
-				stn := erpc.VerifStatusName(erpc.VerifSessionStatus(w.ps))
-				return w.g.Parked("read.got", w.ps) > 0 || (stn != "ok" && stn != "active-closing")
-			}
 			in = VL(VS("qrep"), VN(int64(k)))
-		case "close":
-			if !w.closing {
+		case "close", "close2", "pclose":
+			if !w.closeBegan {
+				w.closeBegan = true
 				for k := range w.ins {
 					if w.pw.isStarted(k) {
 						enteredBefore[k] = true
@@ -305,161 +353,145 @@ func runCase(st *Stats, idx int, script []string) (string, string) {
 				for k := range w.outs {
 					issuedBefore[k] = true
 				}
-				w.closing = true
-				go func() {
-					w.ps.Close()
-					closeReturnedAt = atomic.AddInt32(&stamp, 1)
-					close(w.closed)
-				}()
 			}
-			in = VL(VS("close"))
+			if f[0] == "pclose" {
+				if w.pclosed {
+					in = VL(VS("close2"))
+					w.closeLike(func() { w.ps.Close() }, true)
+				} else {
+					w.pclosed = true
+					w.closeLike(func() { w.P.Close() }, false)
+					in = VL(VS("pclose"))
+				}
+			} else {
+				w.closeLike(func() { w.ps.Close() }, true)
+				in = VL(VS(f[0]))
+			}
 		case "relrun":
-			// the oldest local handler still inside the user handler returns
-			pick := -1
 			for k := range w.ins {
 				if w.pw.isStarted(k) && !w.released[k] {
-					pick = k
+					w.released[k] = true
+					close(w.pw.ch(k))
 					break
 				}
 			}
-			if pick >= 0 {
-				before := w.g.Arrivals("call.prereply", w.ps)
-				w.released[pick] = true
-				close(w.pw.ch(pick))
-				extra = func() bool { return w.g.Arrivals("call.prereply", w.ps) > before }
-			}
 			in = VL(VS("relrun"))
 		case "relpre":
-			if w.g.Parked("call.prereply", w.ps) > 0 {
-				before := w.g.Arrivals("call.postreply", w.ps)
-				w.g.Release("call.prereply", w.ps)
-				extra = func() bool { return w.g.Arrivals("call.postreply", w.ps) > before }
-			}
+			w.g.Release("call.prereply", w.ps)
 			in = VL(VS("relpre"))
 		case "armgot":
 			w.g.Arm("read.got", w.ps)
-			w.gotArmed = true
 			in = VL(VS("armgot"))
 		case "relgot":
 			w.g.Disarm("read.got", w.ps)
-			w.gotArmed = false
 			in = VL(VS("relgot"))
+		case "lost":
+			w.qconn.Close()
+			lost = true
+			in = VL(VS("lost"))
+		case "stallw":
+			if w.stall == nil || !w.stall.Parked() || w.stallRel {
+				w.stall = w.pconn.StallNext(0)
+				w.stallRel = false
+			}
+			in = VL(VS("stallw"))
+		case "relw":
+			if w.stall != nil {
+				w.stall.Release()
+				w.stallRel = true
+			}
+			in = VL(VS("relw"))
 		}
-		obs, ok := w.settle(extra)
-		if !ok {
-			st.Fail(idx, "quiescence", "no quiescent state within the watchdog after "+ev, human)
-		}
+		obs, ok := w.settle()
 		ins = append(ins, in)
 		outs = append(outs, obs)
-		// the property on the implementation's own observations: once Close() has returned,
-		// every handler entered before it began has delivered its genuine reply
-		select {
-		case <-w.closed:
+		if !ok {
+			st.Fail(idx, "quiescence", "no quiescent state within the watchdog after "+ev, human)
+			break // one watchdog per case, the rest of the timeline is not run
+		}
+		// ---- the properties, on the implementation's own observations ----
+		stn := erpc.VerifStatusName(erpc.VerifSessionStatus(w.ps))
+		// C08: a Close() call that has returned => every handler entered before the first Close()
+		// has delivered its genuine reply (unless the connection was cut)
+		if atomic.LoadInt32(&w.sessCloseRet) > 0 && !lost {
 			for k := range enteredBefore {
 				c := w.ins[k]
 				if atomic.LoadInt32(&c.done) != 1 || c.cls != "ok" {
-					st.Fail(idx, "entered-reply", fmt.Sprintf("Close() returned but incoming call %d (handler entered before Close) has no genuine reply: done=%d class=%s", k, c.done, c.cls), human)
+					st.Fail(idx, "entered-reply", fmt.Sprintf("a Session.Close() call has returned but incoming call %d (handler entered before Close) has no genuine reply: done=%d class=%s", k, c.done, c.cls), human)
 				}
 			}
-		default:
+		}
+		// C07: calls and pushes issued while the session is closing or closed fail fast
+		for c, what := range windowOps {
+			if atomic.LoadInt32(&c.done) == 1 {
+				if c.cls != "connclosed" {
+					st.Fail(idx, "fail-fast", fmt.Sprintf("%s issued while the session was %s ended with %s instead of connection-closed", what, "not ok", c.cls), human)
+				}
+				delete(windowOps, c)
+			} else {
+				st.Fail(idx, "fail-fast", fmt.Sprintf("%s issued while the session was not ok did not return at once (status %s)", what, stn), human)
+				delete(windowOps, c)
+			}
+		}
+		for _, k := range lateCalls {
+			c := w.outs[k]
+			if v := c.cmd.Load(); v != nil {
+				cmd := v.(erpc.CallCmd)
+				select {
+				case <-cmd.Done():
+					if cl := classOf(cmd.Status()); cl != "connclosed" {
+						st.Fail(idx, "fail-fast", fmt.Sprintf("call %d issued while the session was not ok ended with %s", k, cl), human)
+					}
+				default:
+					st.Fail(idx, "fail-fast", fmt.Sprintf("call %d issued while the session was not ok is pending", k), human)
+				}
+			}
+		}
+		lateCalls = nil
+		if stn == "active-closing" || stn == "active-closed" || stn == "passive-closed" {
+			if w.ps.Health() {
+				st.Fail(idx, "absorbing", "session healthy although its status is "+stn, human)
+			}
+			select {
+			case <-w.ps.CloseNotify():
+			default:
+				st.Fail(idx, "notify", "session is "+stn+" but CloseNotify has not fired", human)
+			}
 		}
 	}
-	_ = closeReturnedAt
-	// the connection is never lost in these timelines and every timeline is drained
+	// every timeline is drained: nothing may be left hanging
 	for k := range enteredBefore {
 		c := w.ins[k]
-		if atomic.LoadInt32(&c.done) != 1 || c.cls != "ok" {
+		if !lost && (atomic.LoadInt32(&c.done) != 1 || c.cls != "ok") {
 			st.Fail(idx, "entered-reply", fmt.Sprintf("incoming call %d (handler entered before Close) ended with %s", k, c.cls), human)
 		}
 	}
-	for k := range issuedBefore {
-		c := w.outs[k]
+	for k, c := range w.outs {
+		v := c.cmd.Load()
+		if v == nil {
+			st.Fail(idx, "hang", fmt.Sprintf("AsyncCall of outgoing call %d never returned", k), human)
+			continue
+		}
+		cmd := v.(erpc.CallCmd)
 		select {
-		case <-c.Done():
-			if cl := classOf(c.Status()); cl != "ok" {
+		case <-cmd.Done():
+			if cl := classOf(cmd.Status()); issuedBefore[k] && !lost && cl != "ok" {
 				st.Fail(idx, "own-call", fmt.Sprintf("outgoing call %d issued before Close ended with %s although the connection was not lost", k, cl), human)
 			}
 		default:
-			st.Fail(idx, "own-call", fmt.Sprintf("outgoing call %d issued before Close never completed", k), human)
+			st.Fail(idx, "hang", fmt.Sprintf("outgoing call %d never completed", k), human)
 		}
 	}
-	if w.closing {
-		select {
-		case <-w.closed:
-		case <-time.After(settleTimeout):
-			st.Fail(idx, "close-returns", "Close() did not return after every handler and call had finished", human)
-		}
+	if w.closeCalls > 0 && int(atomic.LoadInt32(&w.closeRet)) != w.closeCalls {
+		st.Fail(idx, "close-returns", fmt.Sprintf("%d of %d Close() calls returned after everything had finished", atomic.LoadInt32(&w.closeRet), w.closeCalls), human)
 	}
 	return VL(ins...), VL(outs...)
 }
 
-// oracle on the implementation alone, evaluated by a second pass over a finished case: the
-// harness replays the script's intent instead of the model (which handlers were entered
-// before Close began) - see runChecked.
-func runChecked(st *Stats, idx int, script []string) (string, string) {
-	in, out := runCase(st, idx, script)
-	return in, out
-}
-
-func genScript(cfg *RunCfg, st *Stats) []string {
-	r := cfg.Rng
-	var s []string
-	nin, nout := 0, 0
-	running, parked := 0, 0
-	closed := false
-	gotArmed := false
-	n := 4 + r.Intn(10)
-	for e := 0; e < n; e++ {
-		k := r.Intn(100)
-		switch {
-		case k < 22 && nin < 5 && !gotArmed:
-			s = append(s, "in")
-			nin++
-			running++
-			st.Count("ev:incoming-call")
-		case k < 36 && nout < 4:
-			s = append(s, "out")
-			nout++
-			st.Count("ev:outgoing-call")
-		case k < 50 && nout > 0:
-			s = append(s, fmt.Sprintf("qrep:%d", r.Intn(nout)))
-			st.Count("ev:remote-reply")
-		case k < 62 && !closed:
-			s = append(s, "close")
-			closed = true
-			st.Count("ev:close")
-		case k < 78 && running > 0:
-			s = append(s, "relrun")
-			running--
-			parked++
-			st.Count("ev:handler-returns")
-		case k < 92 && parked > 0:
-			s = append(s, "relpre")
-			parked--
-			st.Count("ev:reply-write")
-		case k < 95 && !gotArmed && nin < 5:
-			s = append(s, "armgot", "in")
-			nin++
-			gotArmed = true
-			st.Count("ev:frame-read-not-counted")
-		case gotArmed:
-			s = append(s, "relgot")
-			gotArmed = false
-			running++
-		default:
-			e--
-			if len(s) > 30 {
-				e = n
-			}
-		}
-	}
-	if !closed {
-		s = append(s, "close")
-	}
-	if gotArmed {
-		s = append(s, "relgot")
-	}
-	// drain: everything parked is released, every remote handler replies
+// drain appends the events that finish every timeline: the stalled write continues, the reader
+// is let go, every handler returns and writes, every remote handler replies.
+func drain(s []string, nout int) []string {
+	s = append(s, "relw", "relgot")
 	for i := 0; i < 6; i++ {
 		s = append(s, "relrun")
 	}
@@ -472,30 +504,155 @@ func genScript(cfg *RunCfg, st *Stats) []string {
 	return s
 }
 
+func genScript(cfg *RunCfg, st *Stats, window bool) []string {
+	r := cfg.Rng
+	var s []string
+	nin, nout, npush := 0, 0, 0
+	running, parked := 0, 0
+	closes := 0
+	gotArmed, stalled, lost := false, false, false
+	n := 4 + r.Intn(10)
+	if window {
+		// a handler in flight, then Close(): everything after is inside the closing window
+		s = append(s, "in")
+		nin, running = 1, 1
+		if r.Intn(2) == 0 {
+			s = append(s, "relrun")
+			running, parked = 0, 1
+		}
+		s = append(s, []string{"close", "pclose", "close2"}[r.Intn(3)])
+		closes = 1
+		st.Count("ev:close")
+	}
+	for e := 0; e < n; e++ {
+		k := r.Intn(100)
+		if window && k < 45 {
+			if r.Intn(2) == 0 {
+				s = append(s, "push")
+				npush++
+				st.Count("ev:push-in-window")
+			} else if nout < 4 {
+				s = append(s, "out")
+				nout++
+				st.Count("ev:call-in-window")
+			}
+			continue
+		}
+		switch {
+		case k < 18 && nin < 5 && !gotArmed:
+			s = append(s, "in")
+			nin++
+			running++
+			st.Count("ev:incoming-call")
+		case k < 30 && nout < 4:
+			s = append(s, "out")
+			nout++
+			st.Count("ev:outgoing-call")
+		case k < 36 && npush < 4:
+			s = append(s, "push")
+			npush++
+			st.Count("ev:push")
+		case k < 46 && nout > 0:
+			s = append(s, fmt.Sprintf("qrep:%d", r.Intn(nout)))
+			st.Count("ev:remote-reply")
+		case k < 58 && closes < 3:
+			kind := "close"
+			if closes > 0 {
+				kind = []string{"close2", "pclose"}[r.Intn(2)]
+			} else if r.Intn(4) == 0 {
+				kind = "pclose"
+			}
+			s = append(s, kind)
+			closes++
+			st.Count("ev:" + kind)
+		case k < 70 && running > 0:
+			s = append(s, "relrun")
+			running--
+			parked++
+			st.Count("ev:handler-returns")
+		case k < 82 && parked > 0:
+			s = append(s, "relpre")
+			parked--
+			st.Count("ev:reply-write")
+		case k < 86 && !gotArmed && nin < 5:
+			s = append(s, "armgot", "in")
+			nin++
+			gotArmed = true
+			st.Count("ev:frame-read-not-counted")
+		case k < 89 && gotArmed:
+			s = append(s, "relgot")
+			gotArmed = false
+			running++
+		case k < 94 && !stalled:
+			s = append(s, "stallw")
+			stalled = true
+			st.Count("ev:write-stalls")
+		case k < 97 && stalled:
+			s = append(s, "relw")
+			stalled = false
+		case k < 100 && !lost && r.Intn(3) == 0:
+			s = append(s, "lost")
+			lost = true
+			st.Count("ev:connection-lost")
+		}
+	}
+	if closes == 0 {
+		s = append(s, "close")
+	}
+	return drain(s, nout)
+}
+
+func fixedScripts() [][]string {
+	var scripts [][]string
+	// every placement of Close on the timeline of one incoming and one outgoing call,
+	// for one closer, two overlapping closers and Peer.Close
+	base := []string{"in", "out", "relrun", "relpre", "qrep:0"}
+	for _, kind := range [][]string{{"close"}, {"close", "close2"}, {"pclose"}, {"close", "pclose"}} {
+		for pos := 0; pos <= len(base); pos++ {
+			sc := append([]string{}, base[:pos]...)
+			sc = append(sc, kind...)
+			sc = append(sc, base[pos:]...)
+			scripts = append(scripts, drain(sc, 1))
+		}
+	}
+	// the frame that was read but not counted
+	scripts = append(scripts, drain([]string{"armgot", "in", "close", "relgot"}, 0))
+	// Close() waiting for an outstanding outgoing call: the peer replies / the connection is lost / silence then loss
+	scripts = append(scripts, drain([]string{"out", "close", "qrep:0"}, 1))
+	scripts = append(scripts, drain([]string{"out", "close", "lost"}, 1))
+	scripts = append(scripts, drain([]string{"out", "close", "close2", "lost"}, 1))
+	scripts = append(scripts, drain([]string{"in", "out", "close", "relrun", "relpre", "lost"}, 1))
+	// overlapping reply writes: A's write stalls holding the write lock, B queues behind it, Close()
+	scripts = append(scripts, drain([]string{"in", "in", "relrun", "relrun", "stallw", "relpre", "relpre", "close", "relw"}, 0))
+	scripts = append(scripts, drain([]string{"in", "in", "relrun", "relrun", "stallw", "relpre", "close", "relpre", "relw"}, 0))
+	scripts = append(scripts, drain([]string{"in", "relrun", "stallw", "out", "relpre", "close", "relw", "qrep:0"}, 1))
+	// calls and pushes inside the closing window
+	scripts = append(scripts, drain([]string{"in", "close", "push", "out", "push"}, 1))
+	scripts = append(scripts, drain([]string{"in", "relrun", "close", "push", "out"}, 1))
+	scripts = append(scripts, drain([]string{"in", "pclose", "push", "close2", "push"}, 0))
+	return scripts
+}
+
 func main() {
+	mode := flag.String("mode", "timeline", "timeline|window")
 	cfg := ParseFlags()
 	Quiet()
 	st := NewStats("C08", cfg)
-	st.Rule = "timelines of 4..14 events + drain over {incoming call (handler parks inside the user handler, then before its reply write), outgoing call (remote handler parks), remote reply, Close(), handler returns, reply write proceeds, frame read but not yet counted}; distinct by script; non-trivial = Close() with at least one call in flight"
+	st.Rule = "timelines over {incoming call (handler parks in the user handler, then before its reply write), outgoing call (remote handler parks), push, remote reply, Close(), a second overlapping Close(), Peer.Close(), handler returns, reply write proceeds, frame read but not yet counted, the next write stalls holding the write lock / continues, connection cut} + drain; fixed part: every placement of {Close, Close+Close, Peer.Close, Close+Peer.Close} on the timeline of one incoming and one outgoing call, Close waiting for an outgoing call with reply / loss, overlapping reply writes, calls and pushes inside the closing window; mode window: a handler in flight, a Close, then calls and pushes; distinct by script"
 	cw := NewCaseWriter(cfg)
 	distinct := DistinctSet{}
-	var scripts [][]string
-	// every placement of Close on the timeline of one incoming and one outgoing call
-	base := []string{"in", "out", "relrun", "relpre", "qrep:0"}
-	for pos := 0; pos <= len(base); pos++ {
-		sc := append([]string{}, base[:pos]...)
-		sc = append(sc, "close")
-		sc = append(sc, base[pos:]...)
-		sc = append(sc, "relrun", "relpre", "qrep:0")
-		scripts = append(scripts, sc)
+	scripts := fixedScripts()
+	if *mode == "window" {
+		scripts = scripts[len(scripts)-3:]
 	}
-	scripts = append(scripts, []string{"armgot", "in", "close", "relgot", "relrun", "relpre"})
 	for len(scripts) < cfg.N {
-		scripts = append(scripts, genScript(cfg, st))
+		scripts = append(scripts, genScript(cfg, st, *mode == "window"))
 	}
-	scripts = scripts[:cfg.N]
+	if len(scripts) > cfg.N {
+		scripts = scripts[:cfg.N]
+	}
 	for i, sc := range scripts {
-		in, out := runChecked(st, i, sc)
+		in, out := runCase(st, i, sc)
 		cw.Add(in, out)
 		key := strings.Join(sc, " ")
 		distinct.Add(key)
